@@ -7,7 +7,7 @@
 From Coq Require Import List NArith String Bool Lia Permutation.
 From Gen Require Import Tables.
 From Model Require Import Base Names Flt Matches Detect.
-From Proofs Require Import SortFacts DetectFacts.
+From Proofs Require Import SortFacts NamesFacts OrderFacts DetectFacts.
 Import ListNotations.
 Open Scope N_scope.
 Open Scope list_scope.
@@ -26,6 +26,7 @@ Section Generic.
   (* the verdicts of encodings that pass the gates carry good matches *)
   Definition VerdictOK : Prop :=
     forall e si dec v,
+      In e IANA_SUPPORTED ->
       gate_filtered FO c e = false -> gate_utf16 FO c e = false ->
       probe_pre FO R c e = Ok (Some (si, dec)) -> probe_rest FO R c e si dec = Ok v ->
       match v with
@@ -77,26 +78,28 @@ Section Generic.
   Qed.
 
   Lemma loop_body_G s e out :
+    In e IANA_SUPPORTED ->
     InvG s -> loop_body FO R c s e = Ok out ->
     match out with Next _ s' => InvG s' | Return _ r => Forall PM r /\ r <> [] end.
   Proof.
-    intros HI H. unfold loop_body in H.
+    intros HE HI H. unfold loop_body in H.
     destruct (gate_filtered FO c e) eqn:G1; [inversion H; subst; exact HI|].
     destruct (gate_utf16 FO c e) eqn:G2; [inversion H; subst; exact HI|].
     bind_inv H. destruct a as [[si dec]|]; [|inversion H; subst; exact HI].
     destruct (gate_similar (soft_failed FO s) e); [inversion H; subst; exact HI|].
     bind_inv H. eapply apply_verdict_G; [exact HI| |exact H].
-    exact (HV e si dec a G1 G2 E E0).
+    exact (HV e si dec a HE G1 G2 E E0).
   Qed.
 
   Lemma main_loop_G encs : forall s out,
+    (forall e, In e encs -> In e IANA_SUPPORTED) ->
     InvG s -> main_loop FO R c s encs = Ok out ->
     match out with Next _ s' => InvG s' | Return _ r => Forall PM r /\ r <> [] end.
   Proof.
-    induction encs as [|e encs IH]; intros s out HI H; cbn [main_loop] in H.
+    induction encs as [|e encs IH]; intros s out HE HI H; cbn [main_loop] in H.
     - inversion H; subst. exact HI.
-    - bind_inv H. pose proof (loop_body_G _ _ _ HI E) as Hb. destruct a as [s'|r].
-      + eapply IH; eauto.
+    - bind_inv H. pose proof (loop_body_G _ _ _ (HE e (or_introl eq_refl)) HI E) as Hb. destruct a as [s'|r].
+      + eapply IH; eauto. intros e' He'. apply HE. right; exact He'.
       + inversion H; subst. exact Hb.
   Qed.
 
@@ -135,7 +138,7 @@ Proof.
   destruct b as [|x b'] eqn:Eb; [contradiction|]. rewrite <- Eb in *.
   set (c := make_ctx FO R b cfg a a0) in *. bind_inv H.
   assert (HI : InvG FO (PA c) (PF c) (init_state FO)) by (constructor; cbn; auto).
-  pose proof (main_loop_G FO R c (PA c) (PF c) (Hadd c) (HV c) _ _ _ HI E1) as Hm.
+  pose proof (main_loop_G FO R c (PA c) (PF c) (Hadd c) (HV c) _ _ _ (order_supported _) HI E1) as Hm.
   destruct a1 as [s|r0].
   - destruct (results FO s) as [|m0 rs] eqn:Hr.
     + destruct (choose_fallback FO s) as [fb|] eqn:Hf; inversion H; subst.
